@@ -1,7 +1,7 @@
 """C08: presolve verdicts and postsolve, SPxMainSM driven stand-alone (harness/h_presolve.cpp)"""
 import os, sys
 sys.path.insert(0, os.path.dirname(os.path.dirname(os.path.abspath(__file__))))
-from props import two_flavour, COMMON_ASSUME  # noqa: E402
+from props import two_flavour, memcheck_stage, COMMON_ASSUME  # noqa: E402
 
 HARNESSES = {
     'h_presolve': dict(src='h_presolve.cpp', insts=['inst_soplex']),
@@ -19,8 +19,8 @@ PROPS = {
         level_note='verdict checks only on instances whose class is certified and tolerance-robust; reduced-LP vertices come from Bland-rule '
                    'runs under random column priorities (not a complete vertex enumeration)',
         technique='runtime monitoring: differential postsolve oracle (exact reference solver on the reduced LP, exact certificate check in the original space) under ASan+UBSan',
-        stages=two_flavour('h_presolve', 1500, 6000, 30000, 60000),
-        minima=lambda t: {'c08.postsolves': 800, 'c08.vertices_postsolved': 300, 'c08.vanished_checked': 100, 'c08.verdicts_checked': 50,
+        stages=lambda t: two_flavour('h_presolve', 1500, 6000, 30000, 60000)(t) + [memcheck_stage('h_presolve', 64, 1600)(t)],
+        minima=lambda t: {'memcheck.cases_completed': 60, 'c08.postsolves': 800, 'c08.vertices_postsolved': 300, 'c08.vanished_checked': 100, 'c08.verdicts_checked': 50,
                           'c08.bases_checked': 500, 'c08.keepbounds.on': 300, 'c08.keepbounds.off': 300},
         eval_counter='cases', distinct_set='nontrivial',
         rule='case k -> (family: 3/8 presolve-rich with 2-7 injected structures, else planted/degenerate/arbitrary; keepbounds=(k/8)%2; '
